@@ -6,8 +6,6 @@ package harness
 
 import (
 	"bytes"
-	"encoding/base64"
-	"encoding/gob"
 	"encoding/json"
 	"flag"
 	"fmt"
@@ -205,14 +203,17 @@ type Spec[C any] struct {
 	Classify func(c C) (bool, []string)
 	// Describe renders a case for samples / replay files (JSON-marshalable).
 	Describe func(c C) any
-	// Key is hashed to decide distinctness; default is the gob encoding.
+	// Key is hashed to decide distinctness; default is the JSON encoding.
 	Key func(c C) []byte
 	// Floors: minimal fraction of evaluations carrying a class label.
 	Floors map[string]float64
 	// Inflight: write the case to VERIF_INFLIGHT before checking it, so the
 	// driver can attribute a process crash to it.
 	Inflight bool
-	// NoReplay disables gob replay files (cases that cannot be encoded).
+	// ExternalCount: the check counts evaluations itself through Count (one
+	// generated case fans out into many evaluated scans); record keeps samples only.
+	ExternalCount bool
+	// NoReplay disables case_json replay files (cases that cannot be encoded).
 	NoReplay bool
 }
 
@@ -223,17 +224,20 @@ type replayFile struct {
 	Message   string          `json:"message"`
 	Seed      uint64          `json:"seed"`
 	Case      json.RawMessage `json:"case"`
-	CaseGob   string          `json:"case_gob,omitempty"`
+	CaseJSON  json.RawMessage `json:"case_json,omitempty"`
 	RapidFail string          `json:"rapid_failfile,omitempty"`
 	HowTo     string          `json:"how_to_replay"`
 }
 
-func gobBytes[C any](c C) []byte {
-	var buf bytes.Buffer
-	if err := gob.NewEncoder(&buf).Encode(&c); err != nil {
+// caseBytes serialises a case with encoding/json (cases are harness-defined
+// structs; JSON keeps nil pointers apart from pointers to zero values, which
+// gob does not).
+func caseBytes[C any](c C) []byte {
+	b, err := json.Marshal(&c)
+	if err != nil {
 		return []byte(fmt.Sprintf("%#v", c))
 	}
-	return buf.Bytes()
+	return b
 }
 
 func hash64(b []byte) uint64 {
@@ -284,9 +288,9 @@ func writeReplay[C any](s *Spec[C], c C, f *Failure, rapidFail string) string {
 		RapidFail: rapidFail,
 		HowTo:     "cd /verif && ./check " + result.Property + " replay   (re-runs every file in this directory through the same oracle, without the random generator)",
 	}
-	gb := gobBytes(c)
-	if !s.NoReplay {
-		rf.CaseGob = base64.StdEncoding.EncodeToString(gb)
+	gb := caseBytes(c)
+	if !s.NoReplay && json.Valid(gb) {
+		rf.CaseJSON = gb
 	}
 	dir := ReplayDir()
 	os.MkdirAll(dir, 0o755)
@@ -324,6 +328,13 @@ func record[C any](s *Spec[C], st *Sub, c C) {
 	}
 	mu.Lock()
 	defer mu.Unlock()
+	if s.ExternalCount {
+		st.Classes["generated-cases"]++
+		if n := st.Classes["generated-cases"]; len(st.Samples) < 3 || (len(st.Samples) < 6 && n%7 == 0) {
+			st.Samples = append(st.Samples, describe(s, c))
+		}
+		return
+	}
 	st.Evaluations++
 	for _, cl := range classes {
 		st.Classes[cl]++
@@ -336,7 +347,7 @@ func record[C any](s *Spec[C], st *Sub, c C) {
 	if s.Key != nil {
 		key = s.Key(c)
 	} else {
-		key = gobBytes(c)
+		key = caseBytes(c)
 	}
 	h := hash64(key)
 	if _, ok := st.seen[h]; ok {
@@ -363,15 +374,13 @@ func replayAll[C any](t *testing.T, s *Spec[C]) {
 			continue
 		}
 		var rf replayFile
-		if json.Unmarshal(b, &rf) != nil || rf.Sub != s.Name || rf.CaseGob == "" {
-			continue
-		}
-		gb, err := base64.StdEncoding.DecodeString(rf.CaseGob)
-		if err != nil {
+		if json.Unmarshal(b, &rf) != nil || rf.Sub != s.Name || len(rf.CaseJSON) == 0 {
 			continue
 		}
 		var c C
-		if err := gob.NewDecoder(bytes.NewReader(gb)).Decode(&c); err != nil {
+		dec := json.NewDecoder(bytes.NewReader(rf.CaseJSON))
+		dec.DisallowUnknownFields()
+		if err := dec.Decode(&c); err != nil {
 			Note("stale replay file %s ignored: %v", p, err)
 			continue
 		}
@@ -399,7 +408,9 @@ func writeInflight[C any](s *Spec[C], c C) {
 	}
 	rf := replayFile{Property: result.Property, Sub: s.Name, Seed: result.Seed, Case: describe(s, c)}
 	if !s.NoReplay {
-		rf.CaseGob = base64.StdEncoding.EncodeToString(gobBytes(c))
+		if cb := caseBytes(c); json.Valid(cb) {
+			rf.CaseJSON = cb
+		}
 	}
 	b, _ := json.Marshal(rf)
 	os.WriteFile(p, b, 0o644)
@@ -485,6 +496,24 @@ func Run[C any](t *testing.T, s Spec[C]) {
 	for _, b := range bad {
 		t.Errorf("generator degenerate: %s", b)
 	}
+}
+
+// Count adds externally counted evaluations to a sub-check: n evaluations,
+// the keys of the non-trivial ones (hashed for distinctness), class counts and
+// the number of cases excluded because they are listed known findings.
+func Count(subName string, n int, ntKeys []string, classes map[string]int, excluded int) {
+	mu.Lock()
+	defer mu.Unlock()
+	st := sub(subName)
+	st.Evaluations += n
+	st.Nontrivial += len(ntKeys)
+	for _, k := range ntKeys {
+		st.seen[hash64([]byte(k))] = struct{}{}
+	}
+	for c, v := range classes {
+		st.Classes[c] += v
+	}
+	st.Excluded += excluded
 }
 
 // Enum is the recorder handed to an enumeration.
